@@ -75,5 +75,31 @@ for what, fn in (("adding one to the logged entry count", lambda e: e.__setitem_
     t = [t for t in m if any(e["op"] == "add" and e["out"] == "ok" for e in t["events"])][0]
     fn([e for e in t["events"] if e["op"] == "add" and e["out"] == "ok"][0])
     show("Rpms", v0, verdicts("Trace_Rpms", "Trace_Rpms.cfg", m, consts), what)
+# --- Modules / ExtraFiles builders
+from harness import builders_traces  # noqa: E402
+trs, consts = builders_traces.prepare(T.run_driver("builders", 0, 40).get("builders", []))
+trs = trs[:60]
+v0 = verdicts("Trace_Builders", "Trace_Builders.cfg", trs, consts)
+
+
+def _first(m, op, pred=lambda e: True):
+    for t in m:
+        for e in t["events"]:
+            if e["op"] == op and e["out"] == "ok" and pred(e):
+                return e
+    raise SystemExit("no %s event to mutate" % op)
+
+
+for what, op, fn in (
+        ("dropping the last RPM of a logged module entry", "modadd",
+         lambda e: [s for s in e["state"] if s["rpms"]][0]["rpms"].pop()),
+        ("logging a stored module name that is not the first part of the UID", "modadd", lambda e: e["meta"].__setitem__("name", "other")),
+        ("logging an accepted extra file under an unknown architecture", "xfadd", lambda e: e.__setitem__("a", "bogus")),
+        ("logging a partial dump that did not strip its base", "treedump",
+         lambda e: [d for d in e["listed"]][0].__setitem__("file", ["kept"] + [d for d in e["listed"]][0]["file"]))):
+    m = copy.deepcopy(trs)
+    pred = (lambda e: any(s["rpms"] for s in e["state"])) if "last RPM" in what else ((lambda e: bool(e["listed"])) if op == "treedump" else (lambda e: True))
+    fn(_first(m, op, pred))
+    show("Builders", v0, verdicts("Trace_Builders", "Trace_Builders.cfg", m, consts), what)
 print("BINDING-DEMO %s" % ("ok" if ok else "FAILED"))
 sys.exit(0 if ok else 1)
